@@ -687,7 +687,7 @@ pub fn run_c16(seed: u64, run: u64) -> Acc {
         for (what, x) in [("fresh", &rep_a), ("after-traffic", &rep_b)] {
             if let Some(bm) = &x.bestmove {
                 let mv = bm.split(' ').nth(1).unwrap_or("");
-                if !x.infos.is_empty() && mv.len() >= 4 && !x.infos.iter().any(|i| i.first_pv == mv[..4]) {
+                if !x.infos.is_empty() && mv.len() >= 4 && !x.infos.iter().any(|i| i.first_pv.len() >= 4 && i.first_pv[..4] == mv[..4]) {
                     v(format!("C16/bestmove-not-among-own-improvements/{}", what), format!("{:?} but reported first PV moves {:?}", bm, x.infos.iter().map(|i| i.first_pv.clone()).collect::<Vec<_>>()), &mut acc);
                 }
             }
